@@ -9,13 +9,16 @@ var vxmlCaptured []interface{}
 
 // vstubXMLEncode: provider for (*xml.Encoder).Encode (engine only): captures the value handed to the XML layer.
 func vstubXMLEncode(v interface{}) error {
+	if vxmlFault {
+		return verrFault
+	}
 	vxmlCaptured = append(vxmlCaptured, v)
 	return nil
 }
 
-func vstrp(s string) *string { return &s }
-func vintp(i int) *int       { return &i }
-func vboolp(b bool) *bool    { return &b }
+func vstrp(s string) *string   { return &s }
+func vintp(i int) *int         { return &i }
+func vboolp(b bool) *bool      { return &b }
 func vf64p(f float64) *float64 { return &f }
 
 // vc19List: a list with ns styles and nr regions whose attribute subsets differ (chosen by the exploration).
